@@ -9,6 +9,10 @@ clause -> what is compared
   bottom / top present       closure of the empty object set and (all objects, their common
                              properties) are among the yielded pairs
   all crosses                table without a blank -> exactly one concept
+  sibling contexts           the same with two more live contexts over the same labels but the
+                             complemented table, created before / after and before any lattice is
+                             requested (every table of S): both the case context and the older sibling
+                             must still give their own concept sets
 """
 
 from .. import common, e1, space
@@ -23,7 +27,7 @@ RULE = ('every boolean table of every shape n x m with n*m <= B (quick B=12, tho
 ASSUMPTIONS = ['R1 (mc/refmodel.py) implements the textbook definitions; its three concept '
                'enumerations are cross-checked on every table',
                'labels are opaque strings; two labelings (ascending/descending) are explored']
-HITS = ('hit_all_cross','hit_nonempty_bottom')
+HITS = ('hit_all_cross', 'hit_nonempty_bottom', 'hit_sibling_schedule')
 BUDGET = {'quick': 240, 'thorough': 3000}
 
 
@@ -77,6 +81,19 @@ def check_case(case, ctr):
             bad('all-cross-one-concept', 1, len(got))
     if ref.closure_objs(()):
         ctr['hit_nonempty_bottom'] += 1
+    # interleaving with sibling contexts over the same labels (lazy lattice computed later)
+    if case.labeling == space.ASC and case.n * case.m <= 16:
+        older, a, newer, iref = e1.sibling_schedule(case)
+        ctr['calls'] += 2
+        ctr['hit_sibling_schedule'] += 1
+        got_a = {(frozenset(c.extent), frozenset(c.intent)) for c in a.lattice}
+        if got_a != exp:
+            bad('concept-set-with-sibling-contexts', sorted(map(_pp, exp)), sorted(map(_pp, got_a)))
+        iexp = {(frozenset(case.olab(e)), frozenset(case.plab(i))) for e, i in iref.concepts}
+        got_o = {(frozenset(c.extent), frozenset(c.intent)) for c in older.lattice}
+        if got_o != iexp:
+            bad('concept-set-of-older-sibling', sorted(map(_pp, iexp)), sorted(map(_pp, got_o)))
+        del older, a, newer
     return V
 
 
